@@ -148,6 +148,11 @@ def _read_block_items(
     if current_item:
         items.append(current_item)
 
+    # Blank lines separating the block from the next section are not part of the last item.
+    for item in items:
+        while len(item) > 1 and not item[-1]:
+            item.pop()
+
     return items, new_offset - 1
 
 
